@@ -455,6 +455,51 @@ func c04SwapReload(c *Ctx) {
 	}
 }
 
+// a second role definition (g2 on the object side): every way of removing / replacing its rules
+// (single, batch, filtered, update, batch update) after the requests have been asked -- the
+// decisions afterwards are those of a fresh enforcer over the listed rules.
+func c04SecondDefinition(c *Ctx) {
+	text := "[request_definition]\nr = sub, obj, act\n[policy_definition]\np = sub, obj, act\n[role_definition]\ng = _, _\ng2 = _, _\n[policy_effect]\ne = some(where (p.eft == allow))\n[matchers]\nm = g(r.sub, p.sub) && g2(r.obj, p.obj) && r.act == p.act\n"
+	reqs := [][]string{{"alice", "data1", "read"}, {"alice", "data2", "read"}, {"bob", "data1", "read"}, {"alice", "data3", "read"}}
+	calls := []struct {
+		name string
+		f    func(e *casbin.Enforcer)
+	}{
+		{"RemoveNamedGroupingPolicy(g2)", func(e *casbin.Enforcer) { _, _ = e.RemoveNamedGroupingPolicy("g2", "data1", "group") }},
+		{"RemoveNamedGroupingPolicies(g2)", func(e *casbin.Enforcer) {
+			_, _ = e.RemoveNamedGroupingPolicies("g2", [][]string{{"data1", "group"}, {"data2", "group"}})
+		}},
+		{"RemoveFilteredNamedGroupingPolicy(g2)", func(e *casbin.Enforcer) { _, _ = e.RemoveFilteredNamedGroupingPolicy("g2", 1, "group") }},
+		{"UpdateNamedGroupingPolicy(g2)", func(e *casbin.Enforcer) {
+			_, _ = e.UpdateNamedGroupingPolicy("g2", []string{"data1", "group"}, []string{"data3", "group"})
+		}},
+		{"UpdateNamedGroupingPolicies(g2)", func(e *casbin.Enforcer) {
+			_, _ = e.UpdateNamedGroupingPolicies("g2", [][]string{{"data1", "group"}, {"data2", "group"}}, [][]string{{"data3", "group"}, {"data4", "group"}})
+		}},
+		{"AddNamedGroupingPolicies(g2)", func(e *casbin.Enforcer) { _, _ = e.AddNamedGroupingPolicies("g2", [][]string{{"data3", "group"}}) }},
+		{"RemoveNamedGroupingPolicies(g)", func(e *casbin.Enforcer) { _, _ = e.RemoveNamedGroupingPolicies("g", [][]string{{"alice", "admin"}}) }},
+	}
+	for _, cl := range calls {
+		mm, _ := model.NewModelFromString(text)
+		e, _ := casbin.NewEnforcer(mm)
+		_, _ = e.AddPolicy("admin", "group", "read")
+		_, _ = e.AddGroupingPolicy("alice", "admin")
+		_, _ = e.AddNamedGroupingPolicy("g2", "data1", "group")
+		_, _ = e.AddNamedGroupingPolicy("g2", "data2", "group")
+		for _, r := range reqs {
+			_ = c04Enf(e, r)
+		}
+		cl.f(e)
+		fresh := c04Fresh(text, e, nil)
+		for _, r := range reqs {
+			if a, b := c04Enf(e, r), c04Enf(fresh, r); a != b {
+				c.Direct("c04.second-definition."+cl.name, fmt.Sprintf("every request asked, then %s: the decision %s for %v differs from the fresh enforcer's %s", cl.name, a, r, b), "")
+			}
+		}
+		c.Count("second-definition")
+	}
+}
+
 func c04Witnesses(c *Ctx) {
 	{ // F01: a matching function registered after the decision was memoised
 		mm, _ := model.NewModelFromString(c04PatternModel)
@@ -691,6 +736,7 @@ func c04Wide(c *Ctx) {
 	c04FailedReloads(c)
 	c04FailedIncremental(c)
 	c04SwapReload(c)
+	c04SecondDefinition(c)
 	c04Conditional(c)
 	c04Functions(c)
 	nh := 150
